@@ -44,6 +44,14 @@ theorem mget_foldl_mset (bs : List Nat) (m : List Nat) (v c : Nat) :
     (setPc s t p).pc t' = if t' = t then p else s.pc t' := by
   simp [setPc, St.pc, mget_mset]
 
+/-! ## `recreatePayload` keeps the map's content -/
+
+theorem recreate_eq (heap : List Entry) (c : Nat) : recreate heap c = heap := by
+  simp [recreate, copied]
+
+theorem cacheCleanup_heap (s : St) (c : Nat) : (cacheCleanup s c).1.heap = evicted s c := by
+  simp only [cacheCleanup, recreate_eq, ite_self]
+
 /-! ## what the thread-level primitives leave alone -/
 
 /-- the part of the state that only the maintainer and `NewCache` / `Release` change -/
